@@ -333,11 +333,12 @@ def _make_op(rng, ident_pool, fail_p, labelmsm=None):
     return ["feed", [frames[:half], frames[half:]], o]
 
 
-def _theme_pools(rng, nthreads):
+def _theme_pools(rng, nthreads, index=0):
     idx = _index()
-    theme = rng.choice(("same", "msm", "msm", "family", "failok", "mixed", "unknown"))
+    theme = rng.choice(("same", "same", "msm", "msm", "family", "failok", "mixed", "unknown"))
     if theme == "same":
-        ident = rng.choice(idx["ids"])
+        # stratified: every identity gets its turn at being parsed by all threads at once
+        ident = idx["ids"][(index // 4) % len(idx["ids"])]
         return theme, [[ident]] * nthreads, rng.choice((0.0, 0.2))
     if theme == "msm":
         pool = idx["fam"]["msm"]
@@ -384,7 +385,7 @@ def generate(master, index, tier):
                 ops.append(_make_op(rng, idx["ids"], rng.choice((0.0, 0.0, 0.4))))
         return {"prop": PROP, "mode": "history", "theme": style, "threads": [ops[:n]]}
     nthreads = rng.choice((2, 2, 2, 3, 4))
-    theme, pools, fail_p = _theme_pools(rng, nthreads)
+    theme, pools, fail_p = _theme_pools(rng, nthreads, index)
     threads = []
     for t in range(nthreads):
         nops = rng.choice((1, 1, 2, 3, 6))
